@@ -13,6 +13,7 @@ package c04
 import (
 	"encoding/json"
 	"fmt"
+	"strings"
 	"time"
 
 	"github.com/zenon-network/go-zenon/chain/nom"
@@ -358,6 +359,19 @@ func check(r *xs.Result, s *hx.Step) bool {
 	if k != "" {
 		r.Violate("C04:"+k+":"+s.Op.K, hx.Describe(s)+": "+msg, map[string]interface{}{"base": s.Base, "history": s.History})
 		return false
+	}
+	// "without skipping": a producer event that ran to its end leaves no confirmed send to a contract unreceived - whoever
+	// confirmed it (op Mo: the momentum of a pillar whose task ended before it reached the inboxes), the next pillar that
+	// gets to work receives it
+	if s.Op.K == "M" && strings.HasPrefix(s.Outcome, "m") && s.Node.LastProduceErr == nil {
+		for _, ca := range contracts {
+			acc := s.Node.Chain.GetFrontierAccountStore(ca)
+			if hd := acc.SequencerFront(s.Node.Chain.GetFrontierMomentumStore().GetAccountMailbox(ca)); hd != nil {
+				r.Violate("C04:confirmed-send-left-in-inbox-after-a-complete-producer-event:"+s.Op.K, hx.Describe(s)+fmt.Sprintf(": the pillar's producer event completed without error, yet send %v is still waiting in the inbox of %v", hd.Hash, ca),
+					map[string]interface{}{"base": s.Base, "history": s.History})
+				return false
+			}
+		}
 	}
 	// vacuity: count contract receives and states where an inbox holds >= 2 pending entries
 	q := expectedQueues(s.Node)
